@@ -867,6 +867,83 @@ func genBacklog(r *rng.R) mqCase {
 	return c
 }
 
+// a held send fails for good while at least three messages are pending behind it: the failing request's data
+// sits only in the first one or two pending builders (they empty when the request is scrubbed) with several
+// messages of other requests queued after them — whatever is left must still leave in the order it was queued
+func genBacklogFail(r *rng.R) mqCase {
+	dg.reset(false)
+	var c mqCase
+	nreq := r.Range(2, 3)
+	for i := 1; i <= nreq; i++ {
+		c.Univ = append(c.Univ, uint64(i))
+	}
+	link := uint64(1)
+	c.Labels = append(c.Labels, mqLabel{K: "build", R: 1, Blocks: []mqBlock{{L: link, Size: uint64(r.Range(1, 2000)), Has: true}}})
+	c.Labels = append(c.Labels, mqLabel{K: "net", OK: true}) // connected: held in SendMsg
+	nfail := r.Range(1, 2)
+	nother := r.Range(4, 6)
+	if r.P(1, 3) {
+		// a message of another request ahead of the failing request's pending data
+		link++
+		c.Labels = append(c.Labels, mqLabel{K: "build", R: 2, Blocks: []mqBlock{{L: link, Size: uint64(r.Range(250000, 330000)), Has: true}}})
+	}
+	for i := 0; i < nfail; i++ {
+		link++
+		c.Labels = append(c.Labels, mqLabel{K: "build", R: 1, Blocks: []mqBlock{{L: link, Size: uint64(r.Range(250000, 330000)), Has: true}}})
+	}
+	for i := 0; i < nother; i++ {
+		link++
+		c.Labels = append(c.Labels, mqLabel{K: "build", R: uint64(r.Range(2, nreq)), Blocks: []mqBlock{{L: link, Size: uint64(r.Range(250000, 330000)), Has: true}}})
+	}
+	if r.P(1, 2) {
+		// the send fails and so does the reconnect
+		c.Labels = append(c.Labels, mqLabel{K: "net", OK: false}, mqLabel{K: "net", OK: false})
+	} else {
+		// retries run out: three failed sends, each followed by a successful reconnect
+		for i := 0; i < 3; i++ {
+			c.Labels = append(c.Labels, mqLabel{K: "net", OK: false}, mqLabel{K: "net", OK: true})
+		}
+	}
+	for i := 0; i < 2*(nfail+nother)+6; i++ {
+		c.Labels = append(c.Labels, mqLabel{K: "net", OK: true})
+	}
+	return c
+}
+
+// the shape "a build whose callback finds its stream closed starts an EMPTY builder in the middle of a backlog":
+// request 1's first message is in flight and its second transaction waits in the allocator; the message fails
+// for good (stream closed, memory released, the waiting reservation granted); another message is then held in
+// SendMsg with a non-empty builder queued behind it; the granted answer is delivered — the build does not fit
+// into the queued builder and adds nothing — and a block larger than a whole message is queued behind the empty
+// builder; no later build: the queue must still work through everything
+func genClosedMidBacklog(r *rng.R) mqCase {
+	dg.reset(false)
+	var c mqCase
+	c.Univ = []uint64{1, 2, 3}
+	c.Limit = uint64(r.Range(1250000, 1400000))
+	first := c.Limit - uint64(r.Range(50000, 200000))
+	t := uint64(r.Range(280000, 330000))
+	b0 := uint64(r.Range(250000, 330000))
+	big := uint64(r.Range(524289, 600000))
+	c.Labels = []mqLabel{
+		{K: "build", R: 1, Blocks: []mqBlock{{L: 1, Size: first, Has: true}}},
+		{K: "build", R: 1, Blocks: []mqBlock{{L: 2, Size: t, Has: true}}}, // waits in the allocator
+		{K: "net", OK: true}, {K: "net", OK: false}, {K: "net", OK: false}, // the first message fails for good
+		{K: "build", R: 2, Blocks: []mqBlock{{L: 3, Size: uint64(r.Range(1, 2000)), Has: true}}},
+		{K: "net", OK: true}, // connected again: held in SendMsg
+		{K: "build", R: 3, Blocks: []mqBlock{{L: 4, Size: b0, Has: true}}},
+		{K: "deliver"},
+		{K: "build", R: uint64(r.Range(2, 3)), Blocks: []mqBlock{{L: 5, Size: big, Has: true}}},
+	}
+	if r.P(1, 3) {
+		c.Labels = append(c.Labels, mqLabel{K: "build", R: 2}) // a transaction without operations changes nothing
+	}
+	for i := 0; i < 8; i++ {
+		c.Labels = append(c.Labels, mqLabel{K: "net", OK: true})
+	}
+	return c
+}
+
 // a reservation parked in the allocator behind this peer's own queued data, then every order of: the network
 // calls returning, Shutdown(), the answer reaching the parked caller
 func genParkSweep(r *rng.R) []mqCase {
@@ -1119,6 +1196,12 @@ func run(c *drv.Ctx) error {
 		}
 		for i := 0; i < c.Count(40, 400); i++ {
 			cases = append(cases, item{mc: genBacklog(c.R.Fork()), tag: "backlog"})
+		}
+		for i := 0; i < c.Count(25, 250); i++ {
+			cases = append(cases, item{mc: genBacklogFail(c.R.Fork()), tag: "backlog-fail"})
+		}
+		for i := 0; i < c.Count(10, 100); i++ {
+			cases = append(cases, item{mc: genClosedMidBacklog(c.R.Fork()), tag: "closed-mid-backlog"})
 		}
 		for i := 0; i < (nsweep+3)/4; i++ {
 			for _, mc := range genParkSweep(c.R.Fork()) {
